@@ -1,3 +1,4 @@
 import NasdaqModel.Driver.Loop
 import NasdaqModel.Driver.Heap
-def main : IO Unit := NasdaqModel.Driver.mainLoop [NasdaqModel.Driver.HeapD.handle]
+import NasdaqModel.Driver.HeapCut
+def main : IO Unit := NasdaqModel.Driver.mainLoop [NasdaqModel.Driver.HeapD.handle, NasdaqModel.Driver.HeapCutD.handle]
